@@ -2,6 +2,8 @@
   C06 — Validation verdict is exactly "size and checksum match the content".
 -/
 import HSModel.Spec
+import HSModel.Proofs.RefineAll
+import HSModel.Proofs.StepLemmas
 namespace HS.C06
 
 /-- the digest the verdict compares against -/
@@ -64,5 +66,122 @@ example : sizeOk 11 (.int 11) ∧ checksumOk [("md5".toList, "ab".toList)] (fun 
   constructor
   · simp [sizeOk]
   · simp only [checksumOk, usedDigest, digestFor]; decide
+
+section
+open Abs
+variable (cfg : Config) (o : Oracle)
+
+/-! ### what the verdict does to the store (specification, then concrete program) -/
+
+/-- `store_object(pid, …)`: an invalid verdict raises the mismatch error and the
+    state is unchanged — no pid bound, no object added -/
+theorem store_invalid_no_effect (a : Abs) (pid : SArg) (data : DataArg) (add cks ca : SArg) (sz : IArg)
+    (p : Str) (add' cs' : Option Str) (t : Tok) (e : Exc)
+    (hargs : storeArgs cfg pid data add cks ca sz = .ok (p, add', cs', t))
+    (hv : (verdict (objMetaOf cfg o t add' cs').digests (fun x => o.dig x t) (o.size t) sz (sArgStr cks) cs').exc = some e) :
+    step cfg o a (.storeObject pid data add cks ca sz) = (.error e, a) := by
+  have hpid := storeArgs_pid cfg hargs
+  subst hpid
+  simp only [step, storeObj, hargs]
+  have : (objMetaOf cfg o t add' cs').size = o.size t := rfl
+  rw [this, hv]
+
+/-- … a valid verdict never rejects: the only errors left are the two
+    already-exists errors of the tagging, raised exactly when the pid is bound;
+    and nothing that was stored is removed or altered -/
+theorem store_valid_only_tag_rejects (a : Abs) (pid : SArg) (data : DataArg) (add cks ca : SArg) (sz : IArg)
+    (p : Str) (add' cs' : Option Str) (t : Tok)
+    (hargs : storeArgs cfg pid data add cks ca sz = .ok (p, add', cs', t))
+    (hv : verdict (objMetaOf cfg o t add' cs').digests (fun x => o.dig x t) (o.size t) sz (sArgStr cks) cs' = .valid) :
+    let r := step cfg o a (.storeObject pid data add cks ca sz)
+    (a.bind.get p = none → r.1 = .ok (.objMeta (objMetaOf cfg o t add' cs'))) ∧
+    (∀ c, a.bind.get p = some c → r.1 = .error .hashStoreRefsAlreadyExists ∨ r.1 = .error .pidRefsAlreadyExists) ∧
+    (∀ c t', a.objs.get c = some t' → r.2.objs.get c = some t') := by
+  have hpid := storeArgs_pid cfg hargs
+  subst hpid
+  simp only [step, storeObj, hargs]
+  have hsz : (objMetaOf cfg o t add' cs').size = o.size t := rfl
+  rw [hsz, hv]
+  simp only [Verdict.exc]
+  refine ⟨?_, ?_, ?_⟩
+  · intro hb
+    have hb' : (a.addObj (objMetaOf cfg o t add' cs').cid t).bind.get p = none := by rw [addObj_bind]; exact hb
+    rw [tag_unbound _ hb']; rfl
+  · intro c hb
+    have hb' : (a.addObj (objMetaOf cfg o t add' cs').cid t).bind.get p = some c := by rw [addObj_bind]; exact hb
+    rw [tag_bound _ hb']
+    split
+    · left; rfl
+    · right; rfl
+  · intro c t' hg
+    show ((a.addObj (objMetaOf cfg o t add' cs').cid t).tag p (objMetaOf cfg o t add' cs').cid).2.objs.get c = some t'
+    rw [tag_objs]
+    exact addObj_keeps a _ _ _ _ hg
+
+/-- `delete_if_invalid_object`: a valid verdict changes nothing and returns normally -/
+theorem div_valid_no_effect (a : Abs) (m : ObjMeta) (c al a' d : Str) (sz : IArg)
+    (hargs : divArgs (.str c) (.str al) sz = .ok (c, al)) (hcl : cleanAlgorithm al = .ok a')
+    (hsz : sizeMismatch sz m.size = false) (hd : divDigest cfg o a m a' = .ok d) (heq : d = lower c) :
+    step cfg o a (.deleteIfInvalid (some m) (.str c) (.str al) sz) = (.ok .unit, a) := by
+  simp [step, divObj, hargs, hcl, hsz, hd, heq]
+
+/-- … an invalid verdict (size, or else checksum) leaves every binding and
+    document alone and every other object alone; if a pid references the object
+    nothing at all changes and the mismatch error is raised; if nothing
+    references it the object is gone afterwards, and the mismatch error is raised
+    when it was there -/
+theorem div_invalid_effect (a : Abs) (m : ObjMeta) (c al a' : Str) (sz : IArg) (e : Exc)
+    (hargs : divArgs (.str c) (.str al) sz = .ok (c, al)) (hcl : cleanAlgorithm al = .ok a')
+    (hbad : (sizeMismatch sz m.size = true ∧ e = .nonMatchingObjSize) ∨
+      (sizeMismatch sz m.size = false ∧ e = .nonMatchingChecksum ∧
+        ∃ d, divDigest cfg o a m a' = .ok d ∧ d ≠ lower c)) :
+    let r := step cfg o a (.deleteIfInvalid (some m) (.str c) (.str al) sz)
+    r.2.bind = a.bind ∧ r.2.docs = a.docs ∧ (∀ c', c' ≠ m.cid → r.2.objs.get c' = a.objs.get c') ∧
+    (a.referenced m.cid = true → r = (.error e, a)) ∧
+    (a.referenced m.cid = false → r.2.objs.get m.cid = none ∧
+      (a.objs.contains m.cid = true → r.1 = .error e)) := by
+  have key : step cfg o a (.deleteIfInvalid (some m) (.str c) (.str al) sz)
+      = (orElse (a.deleteOnly m.cid).1 e, (a.deleteOnly m.cid).2) := by
+    rcases hbad with ⟨h1, rfl⟩ | ⟨h1, rfl, d, h2, h3⟩
+    · simp [step, divObj, hargs, hcl, h1]
+    · simp [step, divObj, hargs, hcl, h1, h2, h3]
+  simp only [key]
+  refine ⟨deleteOnly_bind a _, deleteOnly_docs a _, ?_, ?_, ?_⟩
+  · intro c' hne
+    unfold deleteOnly
+    split
+    · rfl
+    · split
+      · simp only; rw [FMap.get_del_ne _ (Ne.symm hne)]
+      · rfl
+  · intro hr
+    simp [deleteOnly, hr, orElse]
+  · intro hr
+    unfold deleteOnly
+    simp only [hr, Bool.false_eq_true, if_false]
+    split
+    · rename_i hc
+      exact ⟨by simp, fun _ => by simp [orElse]⟩
+    · rename_i hc
+      refine ⟨?_, fun h => absurd h hc⟩
+      cases hg : a.objs.get m.cid with
+      | none => rfl
+      | some t => exact absurd ((FMap.contains_iff _ _).mpr ⟨t, hg⟩) hc
+
+/-- the same on the concrete program text: from any directory that simulates `a`
+    (in particular after any history from the empty store) the call returns what
+    the specification returns and the directory again simulates the
+    specification's state — which by `C05.sim_means` also says: no temporary
+    file in any of the three temp areas, no binding and no list beyond the
+    specification's. With the four theorems above this is the statement of the
+    property for `store_object` and `delete_if_invalid_object` as executed. -/
+theorem concrete_verdict_effect (call : Call) (st : Store) (log : List Eff) (a : Abs) (hs : Sim o st a)
+    (ho : GoodOracle o) (hc : CidArgPlain call) :
+    ∃ w', (call.prog cfg o).run (calm st log) = ((step cfg o a call).1, w') ∧ w'.lk = {} ∧
+      Sim o w'.st (step cfg o a call).2 :=
+  let ⟨w', h1, h2, _, h4⟩ := refines_step cfg o call st log a hs ho hc
+  ⟨w', h1, h2, h4⟩
+
+end
 
 end HS.C06
